@@ -121,7 +121,7 @@ impl Prop for PXSem {
         let mut script = vec![];
         if rng.chance(1, 2) {
             for _ in 0..rng.below(8) {
-                script.push(*rng.pick(&[0i64, 0, 0, 1, 2, 125, 255, 1009]));
+                script.push(*rng.pick(&[0i64, 0, 0, 1, 2, 125, 255, 1009, 1013]));
             }
         }
         let mut v = json!({"stdin": bytes_to_json(&stdin), "delim": delim, "n": n, "L": l, "s": s, "x": rng.chance(1, 5), "r": rng.chance(1, 4),
